@@ -16,6 +16,14 @@ class _Return(Exception):
         self.v = v
 
 
+class _Break(Exception):
+    pass
+
+
+class _Continue(Exception):
+    pass
+
+
 class Node:
     def __init__(self, name, kind, cap, fill, level=0):
         self.name = name
@@ -104,6 +112,10 @@ class Exec:
             obj = self.ev(kids(e)[0])
             if isinstance(obj, Node):
                 return ("field", obj, e["member"])
+            if isinstance(obj, dict):
+                return ("dict", obj, e["member"])
+            if isinstance(obj, tuple) and obj and obj[0] == "result":
+                return ("result", obj, e["member"])
             if obj is None:
                 raise Problem("null pointer dereferenced at line %s: %s" % (e.get("l"), dtable.describe(e)))
             raise AnalysisBroken("member of a non-node at line %s: %s" % (e.get("l"), dtable.describe(e)))
@@ -142,6 +154,10 @@ class Exec:
             return self.this.get(l[1])
         if l[0] == "out":
             return self.out.get(l[1])
+        if l[0] == "dict":
+            return l[1][l[2]]
+        if l[0] == "result":
+            return {"flags": ("flag", l[1][1]), "lastkey": l[1][2]}[l[2]]
         raise AnalysisBroken("load")
 
     def store(self, l, v):
@@ -300,7 +316,9 @@ class Exec:
         name = e["callee"]["name"]
         args = kids(e)
         if name in self.stubs:
-            return self.stubs[name](self, e)
+            r = self.stubs[name](self, e)
+            if r is not NotImplemented:
+                return r
         if name in self.inline and self.tu is not None:
             callee = self.tu.by_did.get(e["callee"]["did"])
             if callee is None or callee.body is None:
@@ -408,8 +426,25 @@ class Exec:
             self.stmt(body)
             if self.truth(self.ev(cond)):
                 raise AnalysisBroken("do-while loop with a live condition at line %s" % s.get("l"))
-        elif k in ("WhileStmt", "ForStmt"):
-            raise AnalysisBroken("loop at line %s inside a fragment that should be straight-line" % s.get("l"))
+        elif k == "WhileStmt":
+            cond, body = kids(s)
+            for _ in range(256):
+                if not self.truth(self.ev(cond)):
+                    break
+                try:
+                    self.stmt(body)
+                except _Break:
+                    break
+                except _Continue:
+                    continue
+            else:
+                raise AnalysisBroken("loop at line %s does not terminate in the model" % s.get("l"))
+        elif k == "BreakStmt":
+            raise _Break()
+        elif k == "ContinueStmt":
+            raise _Continue()
+        elif k == "ForStmt":
+            raise AnalysisBroken("for loop at line %s inside a fragment that should be loop-free" % s.get("l"))
         elif k == "NullStmt":
             pass
         elif k in ("CStyleCastExpr",):
